@@ -586,9 +586,16 @@ class Facts:
     def bodies_named(self, name):
         return [b for b in self.bodies if b.name == name]
 
-    def impl_bodies(self, trait, method):
-        """All bodies implementing trait::method."""
-        return [b for b in self.bodies if b.kind == "traitimpl" and b.trait == trait and b.name == method]
+    def impl_bodies(self, trait, method, raw=False):
+        """All bodies implementing trait::method.  For Block::work the hand-written bodies come as their *work view*
+        (effects.work_view: helpers that move stream data and the block's own methods substituted in), so that the path rules
+        see `self.emit(window, ..)` / `let Some(x) = take_u32(i) else ..` as the one piece of code they are; raw=True gives
+        the bodies as compiled (used where results are keyed by function, e.g. the C15 audit)."""
+        out = [b for b in self.bodies if b.kind == "traitimpl" and b.trait == trait and b.name == method]
+        if raw or not (trait == "block::Block" and method == "work") or not getattr(self, "use_views", False):
+            return out
+        from . import effects
+        return [b if b.from_derive else effects.work_view(self, b, methods=True) for b in out]
 
     def closures_in(self, body):
         """All closure bodies whose typeck root is `body` (transitively nested)."""
